@@ -178,6 +178,8 @@ let check _ln line =
   | _ -> Some "unparsable case line"
 
 let () =
+  (* inputs of 16 MB become lists of 16 M cells: let the major heap grow instead of collecting it over and over *)
+  Gc.set { (Gc.get ()) with Gc.space_overhead = 1000; Gc.minor_heap_size = 8 * 1024 * 1024 };
   run_cases Sys.argv.(1) check;
   let names = List.filter (fun v -> !surviving land (1 lsl v) <> 0) [0;1;2;3;4;5;6;7] in
   Printf.printf "VARIANTS %s (assignment = quote_fix + 2*depth_cap + 4*cap_hint); sensitive cases: panic %d, depth>64 %d, hint>>len %d, crash %d; max model depth %d; max steps/(len+1)^2 %.3f\n"
